@@ -30,13 +30,16 @@ import (
 	"github.com/pingcap/kvproto/pkg/kvrpcpb"
 	"github.com/pingcap/log"
 	"github.com/pkg/errors"
+	"github.com/tikv/client-go/v2/config"
 	"github.com/tikv/client-go/v2/config/retry"
 	"github.com/tikv/client-go/v2/internal/mockstore/mocktikv"
 	"github.com/tikv/client-go/v2/kv"
 	"github.com/tikv/client-go/v2/rawkv"
 	"github.com/tikv/client-go/v2/tikv"
 	"github.com/tikv/client-go/v2/tikvrpc"
+	"github.com/tikv/client-go/v2/txnkv/txnsnapshot"
 	"github.com/tikv/client-go/v2/util"
+	"github.com/tikv/client-go/v2/util/async"
 	"go.uber.org/zap"
 )
 
@@ -58,8 +61,9 @@ type plan struct {
 
 type inject struct {
 	tikv.Client
-	mu sync.Mutex
-	p  *plan
+	mu     sync.Mutex
+	p      *plan
+	nasync int
 }
 
 func (c *inject) SendRequest(ctx context.Context, addr string, req *tikvrpc.Request, timeout time.Duration) (*tikvrpc.Response, error) {
@@ -103,6 +107,16 @@ func (c *inject) SendRequest(ctx context.Context, addr string, req *tikvrpc.Requ
 	return c.Client.SendRequest(ctx, addr, req, timeout)
 }
 
+// the async client API (EnableAsyncBatchGet): same plan, answered from a goroutine like the mock client does
+func (c *inject) SendRequestAsync(ctx context.Context, addr string, req *tikvrpc.Request, cb async.Callback[*tikvrpc.Response]) {
+	c.mu.Lock()
+	c.nasync++
+	c.mu.Unlock()
+	go func() {
+		cb.Schedule(c.SendRequest(ctx, addr, req, 0))
+	}()
+}
+
 type boState struct {
 	Total  int            `json:"total"`
 	Errs   int            `json:"errnum"`
@@ -138,6 +152,22 @@ type record struct {
 	Values   int     `json:"values"`
 	Injected int     `json:"injected"`
 	Finals   int     `json:"finals"`
+	// site "public": several public Get / BatchGet calls on ONE snapshot with runtime statistics
+	Async      bool           `json:"async"`
+	AsyncReqs  int            `json:"async_reqs"`
+	Calls      []callRec      `json:"calls"`
+	StatSleep  map[string]int `json:"stat_sleep"`
+	StatTimes  map[string]int `json:"stat_times"`
+	CloneSleep map[string]int `json:"clone_sleep"` // stats.Clone() merged with stats: everything doubled
+	CloneTimes map[string]int `json:"clone_times"`
+}
+
+type callRec struct {
+	Kind    string `json:"kind"` // batchget / get
+	Workers int    `json:"workers"`
+	K       int    `json:"k"`
+	Values  int    `json:"values"`
+	Err     string `json:"err"`
 }
 
 func key(i int) []byte { return []byte(fmt.Sprintf("k%03d", i)) }
@@ -154,7 +184,7 @@ func main() {
 	if seed == 0 {
 		seed = 1
 	}
-	nruns := 80
+	nruns := 100
 	if os.Getenv("VERIF_TIER") == "thorough" {
 		nruns = 600
 	}
@@ -181,7 +211,7 @@ func main() {
 		panic(err)
 	}
 	for reg := 0; reg < nregions; reg++ {
-		for j := 1; j <= 3; j++ {
+		for j := 1; j <= 6; j++ {
 			if err := txn.Set(key(reg*10+j), []byte(fmt.Sprintf("v%d", reg*10+j))); err != nil {
 				panic(err)
 			}
@@ -209,7 +239,88 @@ func main() {
 		}
 	}
 
+	planID := 1 << 20
+	publicRun := func(run int) {
+		async := r.Intn(2) == 0
+		restore := config.UpdateGlobal(func(c *config.Config) { c.EnableAsyncBatchGet = async })
+		defer restore()
+		ts, err := store.CurrentTimestamp("global")
+		if err != nil {
+			panic(err)
+		}
+		snap := store.GetSnapshot(ts)
+		stats := &txnsnapshot.SnapshotRuntimeStats{}
+		snap.SetRuntimeStats(stats)
+		rec := record{Run: run, Site: "public", Async: async}
+		inj.mu.Lock()
+		inj.nasync = 0
+		inj.mu.Unlock()
+		ncalls := 2 + r.Intn(3)
+		for c := 0; c < ncalls; c++ {
+			planID++
+			k := r.Intn(3)
+			p := &plan{id: planID, errsLeft: map[uint64]int{}, delay: 3 * time.Millisecond}
+			ctx, cancel := context.WithCancel(context.WithValue(context.Background(), runKey, p.id))
+			cr := callRec{K: k}
+			isGet := c == ncalls-1 && r.Intn(2) == 0
+			w := 1 + r.Intn(6)
+			if isGet {
+				w = 1
+			}
+			regs := r.Perm(nregions)[:w]
+			var keys [][]byte
+			var rids []uint64
+			for _, reg := range regs {
+				keys = append(keys, key(reg*10+2+c)) // a fresh key per call: the snapshot caches what it has read
+				region, _, _, _ := cluster.GetRegionByKey(mocktikv.NewMvccKey(key(reg*10 + 1)))
+				rids = append(rids, region.GetId())
+				p.errsLeft[region.GetId()] = k
+			}
+			if w > 1 && r.Intn(2) == 0 {
+				p.delayed = rids[r.Intn(len(rids))]
+			}
+			cr.Workers = w
+			inj.mu.Lock()
+			inj.p = p
+			inj.mu.Unlock()
+			var e error
+			if isGet {
+				cr.Kind, p.cmd = "get", tikvrpc.CmdGet
+				var v kv.ValueEntry
+				v, e = snap.Get(ctx, keys[0])
+				if len(v.Value) > 0 {
+					cr.Values = 1
+				}
+			} else {
+				cr.Kind, p.cmd = "batchget", tikvrpc.CmdBatchGet
+				var m map[string]kv.ValueEntry
+				m, e = snap.BatchGet(ctx, keys)
+				cr.Values = len(m)
+			}
+			if e != nil {
+				cr.Err = errors.Cause(e).Error()
+			}
+			inj.mu.Lock()
+			inj.p = nil
+			inj.mu.Unlock()
+			cancel()
+			rec.Calls = append(rec.Calls, cr)
+		}
+		inj.mu.Lock()
+		rec.AsyncReqs = inj.nasync
+		inj.mu.Unlock()
+		rec.StatSleep, rec.StatTimes = stats.VerifBackoff()
+		cl := stats.Clone()
+		cl.Merge(stats)
+		rec.CloneSleep, rec.CloneTimes = cl.VerifBackoff()
+		js, _ := json.Marshal(rec)
+		fmt.Fprintf(out, "CS\t%s\n", js)
+	}
 	for run := 0; run < nruns; run++ {
+		if run%5 == 4 {
+			publicRun(run)
+			continue
+		}
 		site := []string{"batchget", "checksecondaries", "rawbatchget", "rawbatchput"}[run%4]
 		w := 2 + r.Intn(nregions-1) // regions taking part
 		k := 1 + r.Intn(2)
